@@ -11,7 +11,7 @@ from fiddle import selectors
 from fiddle._src import diffing
 from fiddle._src import tagging
 
-from fvlib import fam, sigs, jsonstub
+from fvlib import fam, sigs, jsonstub, tags2
 from fvlib import stubs
 from fvlib.canon import canon, buildables
 from fvlib.notes import note
@@ -54,7 +54,7 @@ class U(fdl.Tag):
 
 
 TAGS = [T0, T1, T2, U]
-TAGSETS = [(), (T0,), (T1,), (T2,), (U,), (T1, U)]
+TAGSETS = [(), (T0,), (T1,), (T2,), (U,), (T1, U, tags2.T1)]     # tags2.T1: unrelated tag, same short name
 
 
 def fann(p: Annotated[int, T1] = 5, q: int = 6, *, z=None):
